@@ -129,7 +129,11 @@ def case_setgroups(case):
     bus = Bus(units, max_commands=100)
     where = "SetGroups(%s, %r) on a unit in groups %r" % (kind if kind != "group" else "group %d" % g, sorted(req), sorted(cur))
     try:
-        bus.run(sequences.SetGroups(make_dest(address, kind, a, g), set(req)))
+        # "groups is a set of integers": a set or a frozenset; the caller keeps using its own object afterwards
+        given = frozenset(req) if (case["cur"] + case["req"]) % 2 else set(req)
+        bus.run(sequences.SetGroups(make_dest(address, kind, a, g), given))
+        if set(given) != req:
+            return [("C08:setgroups-modified-callers-set", "%s: the caller's set is now %r" % (where, sorted(given)))]
     except Exception as e:  # noqa
         if library_frame(e.__traceback__) is None and not isinstance(e, NonTermination):
             raise
